@@ -280,6 +280,12 @@ func (f *frame) exec(ins ssa.Instruction, st *State) {
 					}
 				}
 				e.setHeap(st, "CALLED_"+cname, "Bool", "true")
+				// calledwith(fn, x): the reference-valued arguments of the calls made so far
+				for _, a := range i.Common().Args {
+					if av := f.val(a, st); av.Sort == "Int" {
+						e.setHeap(st, "ARGS_"+cname, "(Array Int Bool)", "(store "+e.H(st, "ARGS_"+cname, "(Array Int Bool)")+" "+av.S+" true)")
+					}
+				}
 				e.setHeap(st, "COUNT_"+cname, "Int", "(+ "+e.H(st, "COUNT_"+cname, "Int")+" 1)")
 			}
 		}
